@@ -331,6 +331,13 @@ def case(ctx, rng, idx):
         diff = {k: (a.get(k), b.get(k)) for k in set(a) | set(b) if a.get(k) != b.get(k)}
         ctx.violation("subs:coefficients-differ", "substituted symbolic model differs from the numeric build: %r" % (dict(list(diff.items())[:4]),), w)
         return
+    # the substituted model is a model like any other: its bookkeeping covers its terms (it is asked for reduced forms, solved, ...)
+    tv_ = {x for k_ in Hn for x in k_}
+    if not tv_ <= set(Hn.variables) or set(Hn.mapping) != set(Hn.variables) or Hn.num_binary_variables < len(tv_) or \
+            (len(Hn) and Hn.degree < max(len(k_) for k_ in Hn)) or sorted(Hn.mapping.values()) != list(range(len(Hn.mapping))):
+        ctx.violation("subs:result-bookkeeping-does-not-cover-its-terms", "variables %r, mapping %r, num_binary_variables %r, degree %r for terms over %r of degree %r" % (
+            Hn.variables, Hn.mapping, Hn.num_binary_variables, Hn.degree, sorted(map(repr, tv_)), max((len(k_) for k_ in Hn), default=0)), w)
+        return
     ca, cb = Hn.constraints, Hc.constraints
     if set(ca) != set(cb) or any(len(ca[k]) != len(cb[k]) for k in ca):
         ctx.violation("subs:constraints-differ", "recorded constraints %r vs %r" % (ca, cb), w)
